@@ -15,6 +15,8 @@ BIG = 18446744073709551615
 def spell(rng: random.Random, mag: int, r: str, fancy: bool) -> str:
     if not fancy:
         return str(mag)
+    if fancy == "hex":
+        return rng.choice([hex(mag), "0x" + "%X" % mag, "0o%o" % mag, "0b" + bin(mag)[2:], "0x" + "_".join("%X" % mag)])
     k = rng.randrange(7)
     if k == 0:
         return hex(mag)
@@ -627,10 +629,14 @@ class Corpus:
                         if i % 4 == 1:
                             # identifiers need not be ASCII
                             params["name"] = ("GRÖSSTE_" + f.upper()) if f in ("MIN", "MAX") else f"mein_{f}_ä{i}"
+                        elif i % 4 == 3:
+                            # nor letters and digits only: combining marks (Devanagari virama) and connector punctuation continue an identifier
+                            params["name"] = ("क्रम_" + f.upper()) if f in ("MIN", "MAX") else f"क्रम‿{f}_{i}"
                     if rng.random() < 0.6:
                         params["vis"] = rng.choice(["", "pub(crate)", "pub"])
                     if f in ("iter", "names") and rng.random() < 0.6:
-                        params["struct_name"] = f"My{f.capitalize()}{i}" if i % 4 != 1 else f"Zähler{f.capitalize()}{i}"
+                        params["struct_name"] = (f"My{f.capitalize()}{i}" if i % 4 not in (1, 3) else
+                                                 f"Zähler{f.capitalize()}{i}" if i % 4 == 1 else f"क्रम{f.capitalize()}{i}")
                 feats.append((f, params))
             ents = entries_for(rng, vals, rename_p=0.2)
             evis = ["pub", "pub(crate)", "pub", ""][i % 4] if i >= 4 else rng.choice(["pub", "pub(crate)", "pub"])
@@ -743,6 +749,13 @@ class Corpus:
                         ("usize", [3, 9]), ("isize", [-1, 5]), ("usize", [1, 2, 9]), ("isize", [-7, 0, 1, 30])):
             self.add_decl("P", r, vals, ["table", "match", "auto"], note="pointer-width guesses", shuffle=False, implicit_p=1.0,
                           iter_count=2, str_limit=1)
+        # the same neighbourhoods written in hexadecimal / octal / binary, every discriminant explicit: a literal at or above 2^31 is a
+        # plain positive number in a 64-bit isize, whatever width the derive guesses
+        for r, vals in (("isize", [(1 << 31) - 1, 1 << 31, (1 << 32) - 1, 1 << 32]), ("isize", [0x7FFF, 0x8000, 0xFFFF, 0x10000]),
+                        ("usize", [(1 << 31) - 1, 1 << 31, (1 << 32) - 1, 1 << 32]), ("i64", [(1 << 31), (1 << 32) - 1, (1 << 62), (1 << 63) - 1]),
+                        ("i16", [0x7F, 0x80, 0xFF, 0x100, 0x7FFF]), ("i32", [0x7FFF, 0x8000, 0xFFFF, 0x7FFF_FFFF]), ("i128", [(1 << 62), (1 << 63) - 1])):
+            self.add_decl("P", r, vals, ["table", "match"], note="non-decimal literals near sign bits", shuffle=False, implicit_p=0.0,
+                          fancy="hex", iter_count=2, str_limit=1)
         # the same limits for the fixed-width reprs: implicit discriminants right up to the type's own MAX
         for r in ("u8", "i8", "u16", "i16", "u32", "i32", "i64"):
             hi = repr_hi(r)
